@@ -1414,6 +1414,169 @@ def sec_sequences(ck, G, T):
                         {"history": hist, "state": state, "impl": dvec(r1)})
     ck.section("sequences", programs=nseq, steps=nsteps)
 
+
+# ------------------------------------------------------------------ section: weight dtypes and aliasing (purity)
+WDTYPES = [("float64", np.float64), ("float32", np.float32), ("int", np.int64), ("int", np.int32), ("bool", np.bool_)]
+# sparse-matrix arithmetic on boolean data is a different algebra (or / xor): boolean weights are only
+# taken through the operations that do not add weights
+NO_BOOL = {"symmeterize", "anti_symmeterize", "cut_redundancies"}
+
+
+def graph_ops(G, V, rng):
+    """(name, callable(g) -> (returned value, graph holding the result or None))"""
+    seeds = [int(x) for x in rng.choice(V, size=int(rng.integers(1, min(V, 3) + 1)), replace=False)]
+    valid = (rng.random(V) < 0.7)
+    valid[int(rng.integers(V))] = True
+    X1 = rng.integers(0, 6, size=(V, 1)).astype(float)
+    X2 = rng.integers(0, 4, size=(V, 2)).astype(float)
+
+    def m(f):           # mutator: result is the object itself
+        def run(g):
+            r = f(g)
+            return (r if not hasattr(r, "edges") else None), g
+        return run
+
+    def q(f):           # query: result is a value
+        return lambda g: (f(g), None)
+
+    def n(f):           # returns a new graph
+        return lambda g: (None, f(g))
+    ops = [("dijkstra", q(lambda g: g.dijkstra(np.array(seeds)))), ("floyd", q(lambda g: g.floyd())),
+           ("voronoi_labelling", q(lambda g: g.voronoi_labelling(np.array(seeds)))), ("cc", q(lambda g: g.cc())),
+           ("compact_neighb", q(lambda g: tuple(g.compact_neighb()))), ("to_coo_matrix", q(lambda g: g.to_coo_matrix().toarray())),
+           ("is_connected", q(lambda g: int(g.is_connected()))), ("main_cc", q(lambda g: g.main_cc())),
+           ("normalize-0", m(lambda g: g.normalize(0))), ("normalize-1", m(lambda g: g.normalize(1))), ("normalize-2", m(lambda g: g.normalize(2))),
+           ("symmeterize", m(lambda g: g.symmeterize())), ("anti_symmeterize", m(lambda g: g.anti_symmeterize())),
+           ("remove_trivial_edges", m(lambda g: g.remove_trivial_edges())),
+           ("set_euclidian", m(lambda g: g.set_euclidian(X1.copy()))), ("set_gaussian", m(lambda g: g.set_gaussian(X2.copy(), 2.0))),
+           ("remove_edges", m(lambda g: g.remove_edges((np.arange(g.E) % 3 != 1).astype(int)))),
+           ("cut_redundancies", n(lambda g: g.cut_redundancies())), ("subgraph", n(lambda g: g.subgraph(valid.astype(int)))),
+           ("copy", n(lambda g: g.copy())), ("kruskal", n(lambda g: g.kruskal()))]
+    return ops
+
+
+def sec_purity(ck, G, T):
+    """(1) Every operation on graphs whose weights are stored as float64 / float32 / int64 / int32 / bool
+    must give the result of the float64 graph.  (2) No operation may modify an array it was built from:
+    the caller's edge and weight arrays, a sibling graph built from the same arrays, the scipy matrix handed
+    to wgraph_from_coo_matrix, the dense array handed to wgraph_from_adjacency."""
+    from scipy.sparse import coo_matrix
+    WeightedGraph = G.WeightedGraph
+    rng = ck.rng("purity")
+    ncase, nops = 0, 0
+    for it in range(ck.n(60, 500)):
+        V = int(rng.integers(2, 7))
+        sym = rng.random() < 0.6
+        if sym:
+            und = [(u, v, int(rng.integers(1, 5))) for u in range(V) for v in range(u + 1, V) if rng.random() < 0.6]
+            edges = [e for (u, v, w) in und for e in ((u, v, w), (v, u, w))]
+        else:
+            edges = [(u, v, int(rng.integers(1, 5))) for u in range(V) for v in range(V) if rng.random() < 0.45]
+        if len(edges) < 2:
+            edges = [(0, V - 1, 1), (V - 1, 0, 1)]
+        edges = [edges[i] for i in rng.permutation(len(edges))]
+        ops = graph_ops(G, V, rng)
+        ncase += 1
+        ck.count(("purity", V, tuple(edges)), bucket="weight-dtypes+aliasing")
+        refs = {}
+        for kind, dt in WDTYPES:
+            wvals = [w for _, _, w in edges] if kind != "bool" else [1] * len(edges)
+            for name, op in ops:
+                fam = name.split("-")[0]
+                if kind == "bool" and fam in NO_BOOL:
+                    continue
+                if fam == "kruskal" and not sym:
+                    continue
+                nops += 1
+                # the caller's arrays, a sibling graph and a scipy matrix all share the weight buffer
+                e0 = np.array([(u, v) for u, v, _ in edges], dtype=np.intp)
+                w0 = np.array(wvals, dtype=dt)
+                via = ["constructor", "set_weights", "wgraph_from_coo_matrix"][int(rng.integers(3))]
+                sp = None
+                if via == "wgraph_from_coo_matrix" and len(set((u, v) for u, v, _ in edges)) == len(edges):
+                    sp = coo_matrix((w0, (e0[:, 0].copy(), e0[:, 1].copy())), shape=(V, V))
+                    w0 = sp.data
+                    g = G.wgraph_from_coo_matrix(sp)
+                    e0 = np.asarray(g.edges)
+                elif via == "set_weights":
+                    g = WeightedGraph(V, e0, np.ones(len(edges)))
+                    g.set_weights(w0)
+                else:
+                    via = "constructor"
+                    g = WeightedGraph(V, e0, w0)
+                sib = WeightedGraph(V, e0, w0)
+                snap = (e0.copy(), w0.copy())
+                rp = {"V": V, "edges": edges, "weight_dtype": np.dtype(dt).name, "built_via": via, "op": name}
+                try:
+                    val, res = op(g)
+                except Exception as e:  # noqa
+                    ck.fail("%s/raises-for-%s-weights" % (name, kind),
+                            "%s on a graph whose weights have dtype %s raised %s: %s (V=%d, edges=%s)" % (
+                                name, np.dtype(dt).name, type(e).__name__, e, V, edges), rp)
+                    continue
+                # purity
+                if not (np.array_equal(e0, snap[0]) and np.array_equal(w0, snap[1]) and w0.dtype == snap[1].dtype):
+                    ck.fail("purity/%s-modifies-the-arrays-the-graph-was-built-from" % fam,
+                            "%s changed an array it was built from (via %s): weights %s -> %s, edges changed: %s" % (
+                                name, via, snap[1].tolist(), np.asarray(w0).tolist(), not np.array_equal(e0, snap[0])), rp)
+                elif not (np.array_equal(np.asarray(sib.edges), snap[0]) and np.array_equal(np.asarray(sib.weights), snap[1])):
+                    ck.fail("purity/%s-modifies-a-sibling-graph" % fam, "%s on one graph changed another graph built from the same arrays" % name, rp)
+                elif sp is not None and not np.array_equal(sp.toarray(), coo_matrix((snap[1], (snap[0][:, 0], snap[0][:, 1])), shape=(V, V)).toarray()):
+                    ck.fail("purity/%s-modifies-the-scipy-matrix" % fam, "%s changed the matrix handed to wgraph_from_coo_matrix" % name, rp)
+                if res is not None and res is not g and res.E and g.E:
+                    # a returned graph must not share its weights with self: rescale it and look at self
+                    before = np.asarray(g.weights).copy()
+                    try:
+                        res.weights *= 0
+                    except Exception:  # noqa
+                        pass
+                    if not np.array_equal(np.asarray(g.weights), before):
+                        ck.fail("purity/%s-result-shares-weights-with-self" % fam, "the graph returned by %s shares its weight buffer with the original" % name, rp)
+                    val, res = op(WeightedGraph(V, snap[0].copy(), snap[1].copy()))
+                # dtype independence
+                state = (val, graph_state(res) if res is not None else None, (res.V if res is not None else None))
+                if kind == "float64":
+                    refs[name] = state
+                    continue
+                if kind == "bool" or name not in refs:
+                    continue    # boolean graphs have different weights (all 1): only raising / purity is checked
+                r0 = refs[name]
+                okv = True
+                if state[0] is not None or r0[0] is not None:
+                    a, b = state[0], r0[0]
+                    if isinstance(a, tuple):
+                        okv = isinstance(b, tuple) and all(same_weights(x, y, kind) for x, y in zip(a, b))
+                    else:
+                        okv = same_weights(a, b, kind)
+                oks = True
+                if state[1] is not None or r0[1] is not None:
+                    s1, s0 = state[1] or [], r0[1] or []
+                    oks = [(a, b) for a, b, _ in s1] == [(a, b) for a, b, _ in s0] and same_weights([w for _, _, w in s1], [w for _, _, w in s0], kind) \
+                        and state[2] == r0[2]
+                if not (okv and oks):
+                    ck.fail("%s/result-depends-on-weight-dtype-%s" % (name, kind),
+                            "%s on V=%d edges=%s with weights stored as %s gives %s / %s; with float64 weights %s / %s" % (
+                                name, V, edges, np.dtype(dt).name, np.asarray(state[0]).tolist() if state[0] is not None and not isinstance(state[0], tuple) else state[0],
+                                state[1], np.asarray(r0[0]).tolist() if r0[0] is not None and not isinstance(r0[0], tuple) else r0[0], r0[1]), rp)
+        # dense input of wgraph_from_adjacency and the point clouds of the builders stay untouched
+        A = dense(V, V, [(u, v) for u, v, _ in edges], [w for _, _, w in edges])
+        A0 = A.copy()
+        ga = G.wgraph_from_adjacency(A)
+        ga.normalize(int(rng.integers(0, 2))) if ga.E else None
+        if not np.array_equal(A, A0):
+            ck.fail("purity/wgraph_from_adjacency-input-modified", "the array handed to wgraph_from_adjacency changed", {"V": V, "edges": edges})
+        X = rng.integers(0, 4, size=(V + 1, 2)).astype(float)
+        X0 = X.copy()
+        for nm, fn in (("knn", lambda: G.knn(X, 2)), ("eps_nn", lambda: G.eps_nn(X, 1.5)), ("mst", lambda: with_alarm(2, lambda: G.mst(X)))):
+            try:
+                fn()
+            except Exception:  # noqa   (reported by the builder sections)
+                pass
+            if not np.array_equal(X, X0):
+                ck.fail("purity/%s-modifies-its-point-cloud" % nm, "%s changed the coordinate array it was given" % nm, {"X": X0.tolist()})
+                X = X0.copy()
+    ck.section("purity", graphs=ncase, operations=nops)
+
 # ------------------------------------------------------------------ term collection
 class Terms:
     def __init__(self):
@@ -1545,6 +1708,7 @@ def run(ck):
     sec_spanning(ck, G, T)
     sec_dtypes(ck, G, B, T)
     sec_sequences(ck, G, T)
+    sec_purity(ck, G, T)
     t3 = time.time()
     T.run(ck)
     ck.section("timing", sp_s=round(t1 - t0, 1), sym_s=round(t2 - t1, 1), builders_structural_s=round(t3 - t2, 1), coq_eval_s=round(time.time() - t3, 1))
